@@ -111,7 +111,7 @@ func stressOnce(limit, tasks int, seed uint64) stressResult {
 func stressExtra(ctx *core.Ctx) (int, string, []core.ExtraFailure) {
 	rounds, tasks := 60, 400
 	if ctx.Tier == "thorough" {
-		rounds, tasks = 1500, 1000
+		rounds, tasks = 800, 1000
 	}
 	rounds *= ctx.Escalate
 	var fails []core.ExtraFailure
